@@ -61,7 +61,12 @@ def check(tier):
     def run_job(job):
         kind, sd = job
         out = os.path.join(wd, "%s_%d.ndjson" % (kind, sd))
-        p = core.conform(["conc", "--kind", kind, "--seed", str(sd), "--n", str(n), "--perturb", "350", "--out", out], timeout=3000)
+        p = core.conform(["conc", "--kind", kind, "--seed", str(sd), "--n", str(n), "--perturb", "350", "--out", out], timeout=3000, check=False)
+        if p.returncode != 0:
+            # the process running the primitives died (signal / abort): memory unsafety of the code under test is data
+            if p.returncode < 0 or p.returncode in (101, 134, 139):
+                return kind, sd, out, dict(scenarios=0, points=[], crashed=p.returncode, stderr=p.stderr[-600:]), [], []
+            raise core.ToolError("harness failed (%d): conc %s\n%s" % (p.returncode, kind, p.stderr[-1500:]))
         info = json.loads(p.stdout.strip().splitlines()[-1])
         events, bads, diffs, res = sess.validate(out, module="Conc_Trace", timeout=3000)
         return kind, sd, out, info, events, bads
@@ -69,6 +74,10 @@ def check(tier):
     samples = []
     with ThreadPoolExecutor(max_workers=5) as ex:
         for kind, sd, out, info, events, bads in ex.map(run_job, jobs):
+            if info.get("crashed") is not None:
+                V.violation("c19:%s:process-crashed" % kind, "the %s stress driver died with status %s (seed %d): %s" % (kind, info["crashed"], sd, info.get("stderr", "")[-300:]),
+                            dict(kind="conc", driver=kind, seed=sd, n=n, perturb=350, status=info["crashed"]))
+                continue
             nev += len(events)
             ntr += info["scenarios"]
             st = detail["stress"].setdefault(kind, dict(scenarios=0, events=0, points={}, hook_events={}))
